@@ -17,6 +17,7 @@ class Registry:
         self._ctor = {}          # class name -> fn(I, args, kwargs)
         self._loops = {}         # (relpath, qualname) -> {ordinal: LoopSpec}
         self._open = set()
+        self._closures = {}
         self._globals = {}       # (relpath|None, name) -> value or fn(I)
         self._modattr = {}       # (modname-suffix, name) -> value/fn
         self.value_methods = []  # fn(obj, name) -> hook | None
